@@ -39,7 +39,7 @@ SOCK_WEAK_INV = {"FlushDoesNotWaitForCallbacks": "FlushMeaning", "ResponseMatche
                  "NoTypeCheck": "RespType", "CallbackSetAfterDoneLost": "CbNotLost",
                  "ErrorLeavesPendingBlocked": "NoStuckCaller", "SendBeforeTrack": "HonestNoError",
                  "ExceptionIgnored": "FaultStops"}
-LOCAL_WEAK = ["LocalClientPerConnMutex", "SyncWithoutMutex"]
+LOCAL_WEAK = ["LocalClientPerConnMutex", "SyncWithoutMutex", "CallbackOutsideMutex"]
 PROXY_WEAK = ["StartFailureLeaksClients", "KillWatchesConsensusOnly", "KillIgnoresError"]
 ENV = {"StartCall", "SetCallback", "UStop", "ReleaseGate", "TimerFire", "SrvGot", "SrvReply", "SrvFinishFrame", "Fault"}
 
@@ -92,9 +92,9 @@ def local_steps(states, via_proxy):
                         return None
                     kind = "AsyncB" if sk == "Async" else "SyncB"
             steps.append({"name": "StartCall", "conn": conn, "kind": kind, "skind": sk, "call": a["call"],
-                          "gate": bool(a["gate"])})
-        elif a["name"] == "ReleaseApp":
-            steps.append({"name": "ReleaseApp"})
+                          "gate": str(a["gate"])})
+        elif a["name"] in ("ReleaseApp", "ReleaseCb"):
+            steps.append({"name": a["name"]})
     return steps
 
 
@@ -312,7 +312,9 @@ def build_schedules(ctx, quick):
         att.append(("att_" + w, dict(module="ABCI_local", cfg=cfg, timeout=600, workers=1, label="att_" + w)))
     lib = os.path.join(ctx.verif, "spec", "attacks", "ABCI", "library.json")
     use_lib = quick and os.path.exists(lib)
-    alljobs = jobs + weak + ([] if use_lib else att)
+    local_att = [j for j in att if j[0] in ("att_" + w for w in LOCAL_WEAK)]    # cheap: always regenerated
+    att = att if not use_lib else local_att
+    alljobs = jobs + weak + att
     # quick: many small jobs (JVM start dominates) - one per core; thorough: the big exhaustive ones with W
     # workers each, then the small single-worker ones one per core
     if quick:
@@ -341,16 +343,14 @@ def build_schedules(ctx, quick):
         with open(lib) as f:
             L = json.load(f)
         sock_runs += L["sock"]
-        local_runs += L["local"]
-        plocal_runs += L["plocal"]
-    else:
+    if True:
         for key, _kw in att:
             r = res[key]
             if not r.violations or not r.violations[0]["trace"]:
                 log("no attack schedule from %s" % key)
                 continue
             states = [to_json(s) for _h, s in r.violations[0]["trace"]]
-            if key.startswith("att_Local") or key.startswith("att_Sync"):
+            if key in ("att_" + w for w in LOCAL_WEAK):
                 s1 = local_steps(states, False)
                 local_runs.append({"id": key, "steps": s1})
                 s2 = local_steps(states, True)
@@ -439,9 +439,7 @@ def run(ctx):
         if os.environ.get("VERIF_ABCI_WRITE_LIBRARY") == "1":
             os.makedirs(libd, exist_ok=True)
             with open(os.path.join(libd, "library.json"), "w") as f:
-                json.dump({"sock": [r for r in sock_runs if r["id"].startswith("att_")],
-                           "local": [r for r in local_runs if r["id"].startswith("att_")],
-                           "plocal": [r for r in plocal_runs if r["id"].startswith("patt_")]}, f, indent=1)
+                json.dump({"sock": [r for r in sock_runs if r["id"].startswith("att_")]}, f, indent=1)
     rundefs = {r["id"]: dict(r, family="sock") for r in sock_runs}
     rundefs.update({r["id"]: dict(r, family="local") for r in local_runs})
     rundefs.update({r["id"]: dict(r, family="proxy") for r in plocal_runs + proxy_runs})
